@@ -775,5 +775,11 @@ def shared_mechanisms(run: Run, prop: str, first: int, which: list):
             run.guard(rule, check_rejections_propagate, run, rule, src, get_callgraph(src),
                       ['AstBuilder.parse', 'CompositeBaseToken.get', 'UndefinedToken.get'], 'a formula that does not fit the grammar')
             run.floor(rule, 50)
+        elif name == 'formulas':
+            from . import pipeline_eval
+            run.rule(rule, 'probe formulas of this property, translated and evaluated end to end by the evaluator (lexer, parser, translators, '
+                           'context, generated class, runtime helpers as written), give the values Excel defines')
+            run.guard(rule, pipeline_eval.formula_obligations, run, rule, src, g, {prop}, None if run.tier == 'thorough' else 6)
+            run.floor(rule, 5)
         else:
             raise AnalysisError('common', f'unknown mechanism {name}')
